@@ -422,7 +422,7 @@ fn write_replay(prop: &str, family: &str, tier: Tier, seed: u64, f: &Failure, by
 
 pub fn run_property(prop: &PropertyDef, tier: Tier, seed: u64) -> RunResult {
     let t0 = Instant::now();
-    crate::crash::install(prop.id, &verif_dir());
+    crate::crash::install(prop.id, &verif_dir(), tier.name());
     let mut stats = Stats::default();
     let mut infra_problem = false;
 
@@ -472,7 +472,13 @@ pub fn run_property(prop: &PropertyDef, tier: Tier, seed: u64) -> RunResult {
             if p.extension().map(|e| e == "json").unwrap_or(false) {
                 if let Some((fam, bytes)) = read_replay(p.to_str().unwrap()) {
                     if let Some(f) = prop.families.iter().find(|f| f.name == fam) {
-                        let info = (f.run)(&bytes, &ctx);
+                        // in the tier the input was found in (thorough inputs only in thorough runs)
+                        let file_tier = replay_tier(p.to_str().unwrap());
+                        if file_tier == Tier::Thorough && tier == Tier::Quick {
+                            continue;
+                        }
+                        let rctx = Ctx { tier: file_tier, ..ctx };
+                        let info = (f.run)(&bytes, &rctx);
                         stats.record(&info);
                         if let Some(fl) = info.failure {
                             stats.failures.push((fam.clone(), fl, Some(bytes)));
@@ -729,6 +735,15 @@ fn fuzz_stage(prop: &str, fam: &Family, runs: u64, seed: u64) -> Result<(Value, 
     Ok((json!({"family": fam.name, "engine": "libFuzzer (cargo-fuzz, ASan)", "runs_requested": runs, "executed_units": executed, "corpus_files": corpus_size, "crash": crash.is_some(), "wall_s": t0.elapsed().as_secs_f64()}), crash))
 }
 
+pub fn replay_tier(path: &str) -> Tier {
+    let tier = std::fs::read_to_string(path).ok().and_then(|t| serde_json::from_str::<Value>(&t).ok()).and_then(|v| v["tier"].as_str().map(|s| s.to_string()));
+    if tier.as_deref() == Some("thorough") {
+        Tier::Thorough
+    } else {
+        Tier::Quick
+    }
+}
+
 pub fn read_replay(path: &str) -> Option<(String, Vec<u8>)> {
     let text = std::fs::read_to_string(path).ok()?;
     let v: Value = serde_json::from_str(&text).ok()?;
@@ -761,12 +776,11 @@ pub fn replay(props: &[PropertyDef], path: &str, strict: bool) -> i32 {
             return 2;
         }
     };
-    let ctx = Ctx {
-        tier: Tier::Quick,
-        strict,
-        want_sample: true,
-    };
-    crate::crash::install(prop.id, &verif_dir());
+    // scale families decode the same bytes into larger cases in the thorough tier: a replay file
+    // is evaluated in the tier it was found in
+    let tier = if v["tier"].as_str() == Some("thorough") { Tier::Thorough } else { Tier::Quick };
+    let ctx = Ctx { tier, strict, want_sample: true };
+    crate::crash::install(prop.id, &verif_dir(), tier.name());
     crate::crash::enter(fam, &unhex(v["bytes"].as_str().unwrap_or("")));
     let info = if let Some(name) = fam.strip_prefix("fixed:") {
         match prop.fixed.iter().find(|f| f.name == name) {
